@@ -41,7 +41,7 @@ type Gen struct {
 	count  int
 }
 
-var collNamePool = []string{"a", "ab", "coll", "c:", "d:", "i:x", "x y", "naïve", "c.d", "a:b", "日本", "t", "", "coll:", "c:a", "\x00", "A", "a-rather-long-collection-name-0123456789"}
+var collNamePool = []string{"a", "ab", "coll", "c:", "d:", "i:x", "x y", "naïve", "c.d", "a:b", "日本", "t", "", "coll:", "c:a", "\x00", "A", "a-rather-long-collection-name-0123456789", "a\xff", "log\xfe", "log\xff", "caf\xe9"}
 var fieldPool = []string{"a", "ab", "b", "x", "xy", "n", "s", "arr", "a_rather_long_field_name_for_an_index"}
 
 func i64(x int64) interface{}   { return x }
